@@ -1,11 +1,11 @@
 (* C06 — LP fee and incentive accrual: fully backed, in-range only, pro-rata, claim-once.
    Statements only; proofs in Amm/FeesVec.v, FeesProofs.v, FeesLoop.v, FeesFlow.v, FeesSwap.v,
-   FeesAccrual.v, FeesBacking.v, FeesSwapBacking.v, FeesOthers.v.  All statements are about the bit-exact model Amm/Pool.v of
+   FeesAccrual.v, FeesBacking.v, FeesSwapBacking.v, FeesOthers.v, FeesClaimMsg.v, FeesMonitor.v.  All statements are about the bit-exact model Amm/Pool.v of
    x/liquiditypool (validated against the real code on every run by Amm/C06Check.v). *)
 From Coq Require Import ZArith List Bool Sorted.
 Import ListNotations.
 From Sunrise Require Import Base.Outcome Base.Dec Amm.Math Amm.Pool Amm.LiqDefs Amm.LiqInv Amm.Fees Amm.FeesVec
-  Amm.FeesProofs Amm.FeesLoop Amm.FeesFlow Amm.FeesSwap Amm.FeesAccrual Amm.FeesBacking Amm.FeesSwapBacking Amm.FeesOthers.
+  Amm.FeesProofs Amm.FeesLoop Amm.FeesFlow Amm.FeesSwap Amm.FeesAccrual Amm.FeesBacking Amm.FeesSwapBacking Amm.FeesOthers Amm.FeesClaimMsg Amm.FeesMonitor.
 Local Open Scope Z_scope.
 
 (* ---- fees are charged at the pool's rate on the input ---- *)
@@ -62,6 +62,11 @@ Print Assumptions C06_fee_account_history.
 Theorem C06_step_preserves_wf : forall s o, FeeWF s -> op_wf o -> FeeWF (fst (step s o)).
 Proof. exact step_fee_wf. Qed.
 Print Assumptions C06_step_preserves_wf.
+
+(* the run-time well-formedness monitor (part of monitor 9) decides exactly FeeWF *)
+Theorem C06_monitor_wf_decides : forall s, fee_wf_b s = true <-> FeeWF s.
+Proof. exact fee_wf_b_spec. Qed.
+Print Assumptions C06_monitor_wf_decides.
 
 (* ---- incentives accrue like fees ---- *)
 
@@ -166,6 +171,17 @@ Theorem C06_second_claim_zero : forall s pid s1 c s2 c2,
   prepare_claim s pid = Ok (s1, c) -> prepare_claim s1 pid = Ok (s2, c2) -> c2 = vzero.
 Proof. exact second_claim_zero. Qed.
 Print Assumptions C06_second_claim_zero.
+
+(* the same at the level of the message: Msg/ClaimRewards for one position, executed twice in a row,
+   pays nothing the second time.  (For a message that addresses several positions the claims of the
+   later ones re-inject dust that the earlier ones can claim in a repeat: that is activity in
+   between; see monitor 3.) *)
+Theorem C06_second_claim_msg_zero : forall s sender pid s1 c s2 c2,
+  FeeWF s ->
+  (forall ap, find_ap (a_acc_pos s) pid = Some ap -> 0 < ap_shares ap <= a_acc_shares s) ->
+  step s (OClaim sender [pid]) = (s1, Ok c) -> step s1 (OClaim sender [pid]) = (s2, Ok c2) -> c2 = vzero.
+Proof. exact second_claim_msg_zero. Qed.
+Print Assumptions C06_second_claim_msg_zero.
 
 (* no_retroactive_fees: nothing is claimable for a position right after its creation *)
 Theorem C06_no_retroactive_fees : forall s sender lo up base quote mb mq s' pid ab aq l c,
